@@ -6,7 +6,7 @@
      K2  rdflib/term.py Literal._quote_encode (both branches) and
          rdflib/plugins/parsers/notation3.py SinkParser.strconst / _unicodeEscape
    over strings = lists of code points.  Character classes that Python decides
-   (\s, _invalid_uri_chars, _string_escape_map) are taken from the reflected
+   (the IRI character class of the reader, str.isspace, _invalid_uri_chars, _string_escape_map) are taken from the reflected
    tables in Gen/Tables_codec.v.  No proofs in this file. *)
 From Coq Require Export List NArith Bool.
 From RV Require Export Gen.Tables_codec.
@@ -22,7 +22,7 @@ Definition is_digit (c : N) : bool := between 48 57 c.
 Definition is_alnum (c : N) : bool := is_alpha c || is_digit c.
 Definition is_hex (c : N) : bool := is_digit c || between 65 70 c || between 97 102 c.
 Definition is_sp (c : N) : bool := (c =? 32) || (c =? 9).          (* [ \t] *)
-Definition is_space (c : N) : bool := mem c py_space.               (* \s of a str pattern *)
+Definition is_space (c : N) : bool := mem c py_isspace.             (* str.isspace *)
 
 Fixpoint str_eqb (a b : str) : bool :=
   match a, b with
@@ -181,7 +181,7 @@ Fixpoint nt_doc (ts : list triple) : option str :=
 (* ---- reader *)
 (* r_uriref: LT, then one or more non-colon characters, a colon, then any run of characters other than \s DQ LT GT, then GT;
    anchored at the start (the caller has seen LT) *)
-Definition uri_tail_char (c : N) : bool := negb (is_space c || mem c uriref_extra_refused).
+Definition uri_tail_char (c : N) : bool := negb (mem c uriref_refused).
 Definition scan_uriref (s : str) : option (str * str) :=
   match s with
   | c :: r =>
@@ -474,11 +474,14 @@ Definition wf_obj (o : obj) : bool :=
   end.
 Definition wf_triple (t : triple) : bool := let '(s, p, o) := t in wf_node s && wf_iri p && wf_obj o.
 
-(* hypothesis forced by the proof (finding F15b): the reader's IRI pattern refuses every \s character after
-   the scheme, and CR / LF anywhere cut the line; the writer lets all of them through except U+0020 *)
+(* what the reader needs of an IRI: no CR / LF in the scheme part (they would cut the line) and only characters
+   its IRI pattern accepts after the scheme.  Before fix commit 4d2427e4 the pattern refused every \s character and
+   this was an extra hypothesis (finding F15b); now it follows from wf_iri (Proofs.v: wf_iri_readable), the
+   definition is kept so that the trigger nt_kf comes back to life if the two character classes drift apart again *)
 Definition iri_readable (u : str) : bool :=
   let '(scheme, rest) := span (fun c => negb (c =? 58)) u in
-  forallb (fun c => negb ((c =? 10) || (c =? 13))) scheme && forallb (fun c => negb (is_space c)) rest.
+  forallb (fun c => negb ((c =? 10) || (c =? 13))) scheme &&
+  match rest with _ :: path => forallb uri_tail_char path | [] => true end.
 Definition node_readable (n : node) : bool := match n with Iri u => iri_readable u | Bnode _ => true end.
 Definition triple_readable (t : triple) : bool :=
   let '(s, p, o) := t in
